@@ -11,7 +11,8 @@ from vlib.oracle import Ref
 PROPERTY = 'C19'
 RULE = ('cases are constructor inputs: (objects, properties, rows) triples and serialized dicts, obtained from valid '
         'ones by 0, 1 or 2 corruptions from a catalogue (drop / duplicate a name with and without keeping the table '
-        'shape consistent, overlap a property with an object name, drop / add a row, shorten / extend one row incl. '
+        'shape consistent, overlap a property with an object name (also with the empty string as the shared label; the '
+        'empty string on one side only is valid), drop / add a row, shorten / extend one row incl. '
         'the ragged case whose length set still contains the right length, shorten / extend all rows, empty name '
         'lists; for dicts also delete a key, replace a name by int / None / bytes / tuple / list, column index == '
         'len(properties), -1, repeated index, lattice = [] / (), require_lattice without lattice, extra keys, tuple '
@@ -111,6 +112,14 @@ def corrupt_triple(t, kind, pos):
                 r.insert(min(k, len(r)), r[j] if len(r) > j else False)
     elif kind == 'overlap' and n and m:
         p[j] = o[(pos // 5) % n]
+    elif kind == 'empty_label' and n and m:          # '' is a legal label (valid input)
+        if pos & 1:
+            o[i] = ''
+        else:
+            p[j] = ''
+    elif kind == 'overlap_empty_label' and n and m:  # ... but not on both sides
+        o[i] = ''
+        p[j] = ''
     elif kind == 'drop_row' and rows:
         del rows[pos % len(rows)]
     elif kind == 'add_row':
@@ -138,7 +147,7 @@ def corrupt_triple(t, kind, pos):
 
 TRIPLE_KINDS = ['drop_object_keep_rows', 'drop_object_and_row', 'dup_object_keep_rows', 'dup_object_and_row',
                 'drop_property_keep_cols', 'drop_property_and_col', 'dup_property_keep_cols', 'dup_property_and_col',
-                'overlap', 'drop_row', 'add_row', 'shorten_one_row', 'extend_one_row', 'shorten_all_rows',
+                'overlap', 'empty_label', 'overlap_empty_label', 'drop_row', 'add_row', 'shorten_one_row', 'extend_one_row', 'shorten_all_rows',
                 'extend_all_rows', 'empty_objects', 'empty_properties', 'empty_rows']
 
 
@@ -212,6 +221,13 @@ def corrupt_dict(t, kind, pos):
         p = list(p)
         p[pos % m] = o[(pos // 5) % n]
         d['properties'] = p
+    elif kind in ('empty_label', 'overlap_empty_label') and n and m:
+        o, p = list(o), list(p)
+        if kind == 'overlap_empty_label' or pos & 1:
+            o[pos % n] = ''
+        if kind == 'overlap_empty_label' or not pos & 1:
+            p[(pos // 3) % m] = ''
+        d['objects'], d['properties'] = o, p
     elif kind == 'empty_objects':
         d['objects'], d['context'] = [], []
     elif kind == 'empty_properties':
@@ -227,10 +243,10 @@ def corrupt_dict(t, kind, pos):
 
 DICT_KINDS = ['delete_key', 'require_lattice', 'extra_key', 'empty_lattice', 'bad_name', 'index_eq_len', 'index_negative',
               'index_repeated', 'drop_context_row', 'add_context_row', 'drop_object', 'drop_object_and_row',
-              'dup_object_and_row', 'dup_property', 'drop_last_property', 'overlap', 'empty_objects', 'empty_properties',
+              'dup_object_and_row', 'dup_property', 'drop_last_property', 'overlap', 'empty_label', 'overlap_empty_label', 'empty_objects', 'empty_properties',
               'reverse_rows', 'as_tuples']
 CONTEXT_CHANGING = {'drop_object_and_row', 'dup_object_and_row', 'drop_last_property', 'add_context_row', 'drop_context_row',
-                    'drop_object', 'dup_property', 'overlap', 'bad_name', 'index_eq_len', 'index_negative', 'index_repeated',
+                    'drop_object', 'dup_property', 'overlap', 'empty_label', 'overlap_empty_label', 'bad_name', 'index_eq_len', 'index_negative', 'index_repeated',
                     'empty_objects', 'empty_properties'}
 
 
@@ -247,7 +263,7 @@ def run_input(inp, ctx, applied=()):
         call = lambda: concepts.Context(*args)
         site = 'Context()'
         nonbool = any(type(c) is not bool for r in rows for c in r)
-        special = nonbool or rowtype is list
+        special = nonbool or rowtype is list or 'empty_label' in applied
     else:
         d = copy.deepcopy(inp['d'])
         for k in ('objects', 'properties'):
@@ -257,7 +273,7 @@ def run_input(inp, ctx, applied=()):
         broken = dict_rules(inp['d'], req)
         call = lambda: concepts.Context.fromdict(d, require_lattice=req)
         site = 'fromdict()'
-        special = bool(set(applied) & {'extra_key', 'reverse_rows', 'as_tuples'})
+        special = bool(set(applied) & {'extra_key', 'reverse_rows', 'as_tuples', 'empty_label'})
     case = {'input': inp, 'applied': list(applied)}
     nt = len(broken) == 1 or (not broken and special)
     classes = [inp['kind']] + (sorted('rule:' + b for b in broken) if broken else ['valid'])
